@@ -526,9 +526,14 @@ class BaseParser:
             for k, v in data.items():
                 k = str(k)
                 if k.lower() in self.case_insensitive_names:
-                    _data[k.lower()] = v
-                else:
-                    _data[k] = v
+                    k = k.lower()
+                    if k in _data and _data[k] != v and not context.options.ignore_alias_conflicts:
+                        # the same spelling in different letter cases with different values
+                        field = self.get_field(k)
+                        context.handle_error(exc.AliasConflictError(
+                            item=(field.attname if as_attname else field.name) if field else k, value=v))
+                        continue
+                _data[k] = v
             data = _data
 
         result = {}
